@@ -64,6 +64,7 @@ type c05Case struct {
 	Other  bool   `json:"payer_is_not_from"`
 	Pad    int    `json:"script_pad_bytes"`
 	Trail  bool   `json:"noop_tx_after"`
+	NoSig  bool   `json:"payer_did_not_sign"`
 }
 
 type c05Group struct {
@@ -73,6 +74,7 @@ type c05Group struct {
 	other  bool
 	pad    int
 	trail  bool
+	nosig  bool
 }
 
 // ---- script assembly -------------------------------------------------------
@@ -301,7 +303,10 @@ func (e *c05Env) run(r *vh.Run, c *c05Case) (obs c05Obs) {
 	mt := vNeoTx(code, c.Price, c.Limit, e.nonce+3)
 	mt.Payer = payer.Address
 	var tx *types.Transaction
-	if c.Other {
+	if c.Other && c.NoSig {
+		// the payer holds the ONG but did not sign: the fee transfer is refused (authorization failure)
+		tx = vSignTx(mt, from)
+	} else if c.Other {
 		tx = vSignTx(mt, from, payer)
 	} else {
 		tx = vSignTx(mt, payer)
@@ -413,7 +418,7 @@ func (c *c05Case) limit() uint64 {
 func TestVerif_C05(t *testing.T) {
 	r := vh.Start(t, "C05", "failfee")
 	defer r.Finish()
-	r.Rule("case = (script class, gas price, gas limit, payer balance, payer is/is not the ONT holder, script padded over 0/1/2 code-length units, no-op tx after it in the block); class = script:State:fee shape (0 / whole balance / limit*price / minimum / multiple of minimum / other)")
+	r.Rule("case = (script class, gas price, gas limit, payer balance, payer is the ONT holder / a co-signer / a non-signing account, script padded over 0/1/2 code-length units, no-op tx after it in the block); class = script:State:fee shape (0 / whole balance / limit*price / minimum / multiple of minimum / other)")
 	r.Assume("block execution is driven directly (ExecuteBlock+AddBlock); transaction pool admission rules (minimum gas price, signature checks) are not part of the path")
 
 	var rc c05Case
@@ -451,14 +456,17 @@ func TestVerif_C05(t *testing.T) {
 							} else if !trail && (other || pad == 1100) {
 								continue
 							}
-							groups = append(groups, c05Group{s, p, ls, other, pad, trail})
+							groups = append(groups, c05Group{s, p, ls, other, pad, trail, false})
+							if other {
+								groups = append(groups, c05Group{s, p, ls, other, pad, trail, true})
+							}
 						}
 					}
 				}
 			}
 		}
 	}
-	r.Bound(fmt.Sprintf("%d groups (scripts %d x prices %v x limits %v x pads %v x payer role 2 x trailer) x balances {ample, 0, min-1, min, cost-1, cost, codelen*price-1, codelen*price}", len(groups), len(c05Scripts), c05Prices, c05Limits, c05Pads))
+	r.Bound(fmt.Sprintf("%d groups (scripts %d x prices %v x limits %v x pads %v x payer role 3 x trailer) x balances {ample, 0, min-1, min, cost-1, cost, codelen*price-1, codelen*price}", len(groups), len(c05Scripts), c05Prices, c05Limits, c05Pads))
 
 	var e *c05Env
 	defer func() {
@@ -494,12 +502,15 @@ func TestVerif_C05(t *testing.T) {
 				}
 				e = c05Open(r)
 			}
-			c := &c05Case{Script: g.script, Price: g.price, LimSym: g.limSym, Other: g.other, Pad: g.pad, Trail: g.trail,
+			c := &c05Case{Script: g.script, Price: g.price, LimSym: g.limSym, Other: g.other, Pad: g.pad, Trail: g.trail, NoSig: g.nosig,
 				BalSym: bals[bi].sym, Bal: bals[bi].v}
 			c.Limit = c.limit()
 			o := e.run(r, c)
 			r.Eval(1)
 			cls := fmt.Sprintf("%s:state%d:%s", c.Script, o.State, c05FeeShape(c, o))
+			if c.NoSig {
+				cls += ":payer-unsigned"
+			}
 			if o.Blocked != "" {
 				cls = c.Script + ":block-refused"
 			}
